@@ -6,6 +6,9 @@ REPO = os.environ.get("KV_REPO", "/repo")
 if REPO not in sys.path:
     sys.path.insert(0, REPO)
 
+import warnings
+warnings.filterwarnings("ignore")
+
 REACHED = False
 
 
